@@ -27,8 +27,15 @@ SumAb(S) == IF S = {} THEN 0 ELSE LET x == CHOOSE y \in S : TRUE IN x[2] + SumAb
 (* merge entries of equal mass *)
 Merge(D) == { <<m, SumAb({ d \in D : d[1] = m })>> : m \in { d[1] : d \in D } }
 
-(* add one atom of element el to the distribution D (a set of <<mass, abundance>>) *)
-AddAtom(D, el) == Merge({ <<FAdd(d[1], iso[1]), MulA(d[2], iso[2])>> : d \in D, iso \in Isotopes(el) })
+RECURSIVE SumPairs(_)
+SumPairs(P) == IF P = {} THEN 0 ELSE LET p == CHOOSE y \in P : TRUE IN MulA(p[1][2], p[2][2]) + SumPairs(P \ {p})
+
+(* add one atom of element el to the distribution D (a set of <<mass, abundance>> with pairwise distinct masses): *)
+(* every (peak, isotope) pair contributes, pairs landing on the same mass add up                                  *)
+AddAtom(D, el) ==
+    LET P == D \X Isotopes(el)
+        M == { FAdd(p[1][1], p[2][1]) : p \in P } IN
+    { <<m, SumPairs({ p \in P : FAdd(p[1][1], p[2][1]) = m })>> : m \in M }
 
 RECURSIVE AddAtoms(_, _, _)
 AddAtoms(D, el, k) == IF k = 0 THEN D ELSE AddAtoms(AddAtom(D, el), el, k - 1)
